@@ -104,6 +104,7 @@ pub fn demos() -> Vec<Demo> {
     // F15 (C13): enum without variants
     {
         let e = EnumDef {
+            sty: 0,
             vis: true,
             name: "Empty".into(),
             doc: vec![],
@@ -220,11 +221,13 @@ pub fn demos() -> Vec<Demo> {
     // F32 (C13): a singleton on an enum that is not copyable: get() moves out of a raw pointer
     {
         let e = EnumDef {
+            sty: 0,
             vis: true,
             name: "Mode".into(),
             doc: vec![],
             base: "u32".into(),
             variants: vec![Variant {
+                sty: 0,
                 name: "A".into(),
                 value: None,
                 default: false,
@@ -261,6 +264,74 @@ pub fn demos() -> Vec<Demo> {
             stem: "F26-trailing-empty-doc-line",
             prop: "C17/faithful",
             case: l2case(Prog { mods: vec![module(&["m"], vec![Item::Type(t)])] }, 8),
+        });
+    }
+    // F34 (C13): two fields / cases / parameters / virtual functions of one name in one item
+    {
+        let t = ty("A", vec![f("a", Ty::n("u32")), f("a", Ty::n("u32"))]);
+        v.push(Demo {
+            property: "C13",
+            stem: "F34-duplicate-field",
+            prop: "C13/name-clashes",
+            case: l2case(Prog { mods: vec![module(&["m"], vec![Item::Type(t)])] }, 8),
+        });
+        let var = |n: &str| Variant {
+            sty: 0,
+            name: n.into(),
+            value: None,
+            default: false,
+            doc: vec![],
+        };
+        let e = EnumDef {
+            sty: 0,
+            vis: true,
+            name: "E".into(),
+            doc: vec![],
+            base: "u32".into(),
+            variants: vec![var("X"), var("X")],
+            singleton: None,
+            copyable: false,
+            cloneable: false,
+            defaultable: false,
+        };
+        v.push(Demo {
+            property: "C13",
+            stem: "F34-duplicate-case",
+            prop: "C13/name-clashes",
+            case: l2case(Prog { mods: vec![module(&["m"], vec![Item::Enum(e)])] }, 8),
+        });
+        let mut t = ty("A", vec![]);
+        t.vft = Some(Vft {
+            size: None,
+            funcs: vec![func("vf", vec![Arg::ConstSelf], None, None), func("vf", vec![Arg::ConstSelf], None, None)],
+        });
+        v.push(Demo {
+            property: "C13",
+            stem: "F34-duplicate-virtual-function",
+            prop: "C13/name-clashes",
+            case: l2case(Prog { mods: vec![module(&["m"], vec![Item::Type(t)])] }, 8),
+        });
+        let mut m = module(&["m"], vec![Item::Type(ty("A", vec![]))]);
+        m.impls.push(Impl {
+            ty: "A".into(),
+            funcs: vec![func("g", vec![Arg::ConstSelf, Arg::Named("a".into(), Ty::n("u32")), Arg::Named("a".into(), Ty::n("u32"))], None, Some(0x10))],
+        });
+        v.push(Demo {
+            property: "C13",
+            stem: "F34-duplicate-parameter",
+            prop: "C13/name-clashes",
+            case: l2case(Prog { mods: vec![m] }, 8),
+        });
+    }
+    // F35 (C14): a.v2.pyxis was written to a.rs, over the output of a.pyxis
+    {
+        let a = module(&["a"], vec![Item::Type(ty("S", vec![f("x", Ty::n("u32"))]))]);
+        let a2 = module(&["a.v2"], vec![Item::Type(ty("T", vec![f("x", Ty::n("u32"))]))]);
+        v.push(Demo {
+            property: "C14",
+            stem: "F35-dotted-file-name",
+            prop: "C14/dotted-paths",
+            case: l2case(Prog { mods: vec![a, a2] }, 8),
         });
     }
     v
